@@ -462,6 +462,43 @@ def tree(sheet):
     return coq_list(tree_stmts(sheet))
 
 
+def sel_count(stmts, parents=1):
+    """upper estimate of the largest selector list any rule produces"""
+    worst = parents
+    for s in stmts:
+        if s[0] == 'rule':
+            n = 0
+            for sel in s[1]:
+                k = sum(1 for it in sel if it[0] == 'amp')
+                n += parents ** k if k else parents
+            worst = max(worst, n, sel_count(s[2], n))
+        elif s[0] == 'media':
+            worst = max(worst, sel_count(s[2], parents))
+    return worst
+
+
+def has_amp_after_bracket(stmts, any_attr=None):
+    """classifier of known finding C02/amp-bracket: an & directly after an attribute selector, or directly after
+    another & while some selector of the sheet ends in an attribute selector"""
+    def walk(ss):
+        for s in ss:
+            if s[0] == 'rule':
+                yield s
+                for x in walk(s[2]):
+                    yield x
+            elif s[0] == 'media':
+                for x in walk(s[2]):
+                    yield x
+    rules = list(walk(stmts))
+    attr_anywhere = any(it[0] == 'attr' for r in rules for sel in r[1] for it in sel)
+    for r in rules:
+        for sel in r[1]:
+            for a, b in zip(sel, sel[1:]):
+                if b[0] == 'amp' and (a[0] == 'attr' or (a[0] == 'amp' and attr_anywhere)):
+                    return True
+    return False
+
+
 def size(stmts):
     n = 0
     for s in stmts:
